@@ -709,6 +709,7 @@ package tree
 //@   ensures [fresh_inner_node_with_three_neighbours_tip_upper_lower] result3 == nil ==> fresh(result2) && deg(result2) == 3 && len(result2.br) == 3 && result2.neigh[0] == n && result2.br[0] == result0 && result2.neigh[1] == old(e.left) && result2.br[1] == e && result2.neigh[2] == old(e.right) && result2.br[2] == result1
 //@   ensures [tip_branch] result3 == nil ==> fresh(result0) && result0.left == result2 && result0.right == n && result0.length == 1.0 && deg(n) == 1 && n.neigh[0] == result2 && n.br[0] == result0
 //@   ensures [upper_half_keeps_the_branch_object_and_half_the_length] result3 == nil ==> e.left == old(e.left) && e.right == result2 && e.length == old(e.length) / 2.0 && e.support == old(e.support)
+//@   ensures [the_two_new_branches_differ] result3 == nil ==> result0 != result1 && result0 != e && result1 != e
 //@   ensures [lower_half_is_fresh_with_half_the_length] result3 == nil ==> fresh(result1) && result1.left == result2 && result1.right == old(e.right) && result1.length == old(e.length) / 2.0
 //@   ensures [same_slot_on_the_upper_end] result3 == nil ==> (forall k int :: {e.left.neigh[k]} 0 <= k && k < deg(e.left) ==> (old(e.left.br[k]) == e ? e.left.neigh[k] == result2 && e.left.br[k] == e : e.left.neigh[k] == old(e.left.neigh[k]) && e.left.br[k] == old(e.left.br[k])))
 //@   ensures [same_slot_on_the_lower_end] result3 == nil ==> (forall k int :: {old(e.right).neigh[k]} 0 <= k && k < deg(old(e.right)) ==> (old(old(e.right).br[k]) == e ? old(e.right).neigh[k] == result2 && old(e.right).br[k] == result1 : old(e.right).neigh[k] == old(old(e.right).neigh[k]) && old(e.right).br[k] == old(old(e.right).br[k])))
@@ -733,6 +734,9 @@ package tree
 //@ func tree.RandomUniformBinaryTree
 //@   flag noframe
 //@   flag lightcalls
+//@   flag countcalls
+//@   ensures [indexes_are_rebuilt_before_the_tree_is_returned] result0 != nil ==> ghost(ncalls_ReinitIndexes) == old(ghost(ncalls_ReinitIndexes)) + 1
+//@   ensures [an_unrooted_tree_is_rerooted_on_an_inner_node] result0 != nil ==> ghost(ncalls_RerootFirst) == old(ghost(ncalls_RerootFirst)) + (rooted ? 0 : 1)
 //@   ensures [too_few_tips_is_an_error_not_a_crash] (nbtips < 3 && !rooted) || (nbtips < 3 && rooted) ==> result0 == nil && result1 != nil
 //@   ensures [a_tree_or_an_error] result0 == nil ==> result1 != nil
 //@   call math/rand.Intn [insertion_branch_drawn_among_all_branches_created_so_far] a0 == len(edges)
@@ -744,6 +748,45 @@ package tree
 //@     step [later_rounds_both_new_branches_get_a_non_negative_length] len(edges) > 0 ==> next(edges)[len(edges)] != nil && next(edges)[len(edges)].length >= 0.0 && next(edges)[len(edges) + 1] != nil && next(edges)[len(edges) + 1].length >= 0.0
 //@     invariant [at_least_one_branch_after_the_first_round] i >= 2 ==> len(edges) >= 1
 //@     step [two_branches_added_per_grafted_tip_one_or_two_in_the_first_round] len(next(edges)) == len(edges) + (len(edges) == 0 ? (rooted ? 2 : 1) : 2)
+//@     step [later_rounds_add_two_different_branches_created_in_this_round_and_keep_the_earlier_candidates] len(edges) > 0 ==> freshiter(next(edges)[len(edges)]) && freshiter(next(edges)[len(edges) + 1]) && next(edges)[len(edges)] != next(edges)[len(edges) + 1] && (forall k int :: {next(edges)[k]} 0 <= k && k < len(edges) ==> next(edges)[k] == edges[k])
+
+// RandomYuleBinaryTree (properties C16, C20): the new tip is grafted on the branch of a tip drawn among all the
+// tips created so far, indexes are rebuilt before the tree is returned, unrooted trees are re-rooted first
+//@ func tree.RandomYuleBinaryTree
+//@   flag noframe
+//@   flag lightcalls
+//@   flag countcalls
+//@   ensures [too_few_tips_is_an_error_not_a_crash] nbtips < 3 ==> result0 == nil && result1 != nil
+//@   ensures [a_tree_or_an_error] result0 == nil ==> result1 != nil
+//@   ensures [indexes_are_rebuilt_before_the_tree_is_returned] result0 != nil ==> ghost(ncalls_ReinitIndexes) == old(ghost(ncalls_ReinitIndexes)) + 1
+//@   ensures [an_unrooted_tree_is_rerooted_on_an_inner_node] result0 != nil ==> ghost(ncalls_RerootFirst) == old(ghost(ncalls_RerootFirst)) + (rooted ? 0 : 1)
+//@   call math/rand.Intn [insertion_tip_drawn_among_all_tips_created_so_far] a0 == len(tips)
+//@   call (*tree.Tree).GraftTipOnEdge [new_tip_grafted_on_the_branch_of_the_drawn_tip] a2 == tips[i_tip].br[0] && a1 == n
+//@   loop 1
+//@     invariant [tree_object] t != nil
+//@     invariant [a_tip_exists_as_soon_as_a_branch_does] len(edges) >= 1 ==> len(tips) >= 1
+//@     step [every_created_tip_becomes_a_candidate] len(next(tips)) == len(tips) + (len(edges) == 0 ? 2 : 1) && next(tips)[len(next(tips)) - 1] == n
+
+// AllTopologies / allTopologies_recur (property C16): tip number k (counting from 1) is named tipNames[k-1] when
+// names are given; the recursion places exactly one more tip per level; after each level the branch the tip was
+// grafted on gets its two ends and its slots back and the grafted pieces are detached
+//@ func tree.allTopologies_recur
+//@   flag noframe
+//@   flag lightcalls
+//@   requires t != nil && trees != nil && 0 <= total && (len(tipNames) > 0 ==> len(tipNames) == nbTips) && total <= nbTips
+//@   call (*tree.Node).SetName [the_inserted_tip_takes_the_next_unused_name] len(tipNames) > 0 ==> a1 == tipNames[total] && a0 == n
+//@   call tree.allTopologies_recur [one_more_tip_is_placed_per_level] a0 == t && a1 == nbTips && a2 == total + 1 && a3 == trees && a4 == tipNames
+//@   call (*tree.Tree).GraftTipOnEdge [the_new_tip_is_tried_on_every_branch_in_turn] a1 == n && a2 == e
+//@   loop 1
+//@     step [the_branch_gets_its_ends_back_and_the_grafted_pieces_are_detached] e.left == left && e.right == right && e1.left == nil && e1.right == nil && e2.left == nil && e2.right == nil && len(n.neigh) == 0 && len(n1.neigh) == 0 && len(n.br) == 0 && len(n1.br) == 0
+
+//@ func tree.AllTopologies
+//@   flag noframe
+//@   flag lightcalls
+//@   ensures [too_few_tips_is_an_error] (nbTips < 3 && !rooted) || (nbTips < 2 && rooted) ==> result1 != nil && result0 == nil
+//@   ensures [a_name_list_of_the_wrong_length_is_an_error] len(tipNames) > 0 && len(tipNames) != nbTips ==> result1 != nil
+//@   call (*tree.Node).SetName [tip_k_takes_the_k_th_given_name] len(tipNames) > 0 ==> a1 == tipNames[total - 1]
+//@   call tree.allTopologies_recur [the_remaining_tips_are_inserted_recursively] a0 == t && a1 == nbTips && a2 == (rooted ? 1 : 3)
 
 //@ func (*tree.Tree).NewNode
 //@   allocates Node, []string, []*Node, []*Edge
